@@ -189,7 +189,24 @@ def run(ctx):
         ctx.extra["handler_predictions"] = len(mlines)
     # legacy == versioned through real matches, timeouts and answers: the scenario driver with client modes l / v / a
     scens = [s for s in brokerlib.scenarios(ctx.rng, ctx.tier) if s.kind in ("match-answer", "client-timeout-late-answer", "no-proxies", "incompatible-pool", "early-answer-then-match")]
+    # explicit legacy / versioned / AMP twins whose answers contain characters a careless legacy path could mangle
+    twins = []
+    for j, ans in enumerate(["a%d%s%25-x", "%", "100%%", "{v=0%0d%0a}", "plain"]):
+        for mode in ("l", "v", "a"):
+            sc = brokerlib.Scen("twin%d%s" % (j, mode), "legacy-versioned-twin")
+            sid = "twsid%d%s" % (j, mode)
+            sc.poll(0, sid, "unrestricted")
+            sc.client(300, "restricted", "{tw%d%s}" % (j, mode), mode=mode)
+            sc.answer(150, sid, ans, after_poll=0)
+            twins.append((sc, ans))
+    scens += [t[0] for t in twins]
+    before = len(ctx.unproven)
     brokerlib.run_scenarios(ctx, scens, {"C14", "C04"}, "http-scenarios")
+    # a disagreement on a twin scenario means the endpoint did not return the posted answer verbatim: that is C14's clause
+    for u in ctx.unproven[before:]:
+        if "scenario twin" in u and "'C0'" in u:
+            ctx.violation("legacy-not-equivalent", "a client endpoint did not return the posted answer byte for byte: " + u[u.find("scenario twin"):][:300],
+                          dict(label="http-scenarios", detail=u[:1500]))
 
 
 def replay(ctx, doc):
